@@ -25,6 +25,7 @@ type gfunc struct {
 	method   bool // T.m: first param is the receiver
 	recvTy   string
 	pure     bool
+	quiet    bool // neither prints nor can fault (transitively): see quietBody
 }
 
 type GenOpts struct {
@@ -565,7 +566,9 @@ func (g *Gen) callReturning(t *Ty, depth int) *E {
 		f := g.funcs[i]
 		// Go leaves the order between a call and the reads of variables in the same expression
 		// unspecified: only functions that do not write package-level state may appear inside expressions
-		if len(f.results) == 1 && f.results[0].Eq(t) && f.pure {
+		// ... and between a call and a faulting operand: where faults are possible only functions that
+		// neither print nor can fault themselves may appear inside expressions
+		if len(f.results) == 1 && f.results[0].Eq(t) && f.pure && (!g.o.Panics || f.quiet) {
 			cs = append(cs, i)
 		}
 	}
@@ -1276,6 +1279,7 @@ func (g *Gen) function(i int) {
 	g.pop()
 	fn.Body = body
 	f.pure = !g.impure
+	f.quiet = g.quietBody(fn.Body)
 	g.prog.Funcs = append(g.prog.Funcs, fn)
 	g.funcs = append(g.funcs, f)
 }
